@@ -284,7 +284,8 @@ package tbtc
 //@   modifies alloc
 //@   ensures result != nil && !old(allocated(result))
 //@ func depositSweepAction.execute
-//@   property C46
+//@   property C46 C26
+//@   assert call:assembleDepositSweepTransaction : [the-transaction-is-assembled-from-the-validated-deposits-with-exactly-the-proposed-fee] arg2 == walletMainUtxo && arg3 == validatedDeposits && arg4 == wrap_i64(bigval(dsa.proposal.SweepTxFee))
 //@   modifies ghost.obsConfirmed, ghost.obsMempool, ghost.obsWallet, ghost.obsConfirmedOK, ghost.txIn, ghost.txOut, ghost.txIns, ghost.txOuts, ghost.txLastIn, ghost.txLastOut, ghost.redChange, alloc
 //@   assert call:walletTransactionExecutor.signTransaction : [signing-starts-no-earlier-than-action-start] arg2 >= dsa.proposalProcessingStartBlock
 //@   assert call:walletTransactionExecutor.signTransaction : [signing-ends-margin-before-expiry] arg3 + depositSweepSigningTimeoutSafetyMarginBlocks == dsa.proposalExpiryBlock
@@ -309,7 +310,8 @@ package tbtc
 //@   modifies alloc
 //@   ensures result != nil && !old(allocated(result))
 //@ func redemptionAction.execute
-//@   property C46
+//@   property C46 C26
+//@   assert call:assembleRedemptionTransaction : [the-transaction-is-assembled-from-the-validated-requests] arg2 == walletMainUtxo && arg3 == validatedRequests
 //@   modifies ghost.obsConfirmed, ghost.obsMempool, ghost.obsWallet, ghost.obsConfirmedOK, ghost.txIn, ghost.txOut, ghost.txIns, ghost.txOuts, ghost.txLastIn, ghost.txLastOut, ghost.redChange, alloc
 //@   assert call:walletTransactionExecutor.signTransaction : [signing-starts-no-earlier-than-action-start] arg2 >= ra.proposalProcessingStartBlock
 //@   assert call:walletTransactionExecutor.signTransaction : [signing-ends-margin-before-expiry] arg3 + redemptionSigningTimeoutSafetyMarginBlocks == ra.proposalExpiryBlock
@@ -334,7 +336,8 @@ package tbtc
 //@   modifies alloc
 //@   ensures result != nil && !old(allocated(result))
 //@ func movingFundsAction.execute
-//@   property C46
+//@   property C46 C26
+//@   assert call:assembleMovingFundsTransaction : [the-transaction-is-assembled-for-the-proposed-targets-with-exactly-the-proposed-fee] arg1 == walletMainUtxo && arg2 == mfa.proposal.TargetWallets && arg3 == wrap_i64(bigval(mfa.proposal.MovingFundsTxFee))
 //@   modifies ghost.obsConfirmed, ghost.obsMempool, ghost.obsWallet, ghost.obsConfirmedOK, ghost.txIn, ghost.txOut, ghost.txIns, ghost.txOuts, ghost.txLastIn, ghost.txLastOut, ghost.redChange, alloc
 //@   assert call:walletTransactionExecutor.signTransaction : [signing-starts-no-earlier-than-action-start] arg2 >= mfa.proposalProcessingStartBlock
 //@   assert call:walletTransactionExecutor.signTransaction : [signing-ends-margin-before-expiry] arg3 + movingFundsSigningTimeoutSafetyMarginBlocks == mfa.proposalExpiryBlock
@@ -359,7 +362,8 @@ package tbtc
 //@   modifies alloc
 //@   ensures result != nil && !old(allocated(result))
 //@ func movedFundsSweepAction.execute
-//@   property C46
+//@   property C46 C26
+//@   assert call:assembleMovedFundsSweepTransaction : [the-transaction-is-assembled-with-exactly-the-proposed-fee] arg2 == movedFundsUtxo && arg3 == walletMainUtxo && arg4 == wrap_i64(bigval(mfsa.proposal.SweepTxFee))
 //@   modifies ghost.obsConfirmed, ghost.obsMempool, ghost.obsWallet, ghost.obsConfirmedOK, ghost.txIn, ghost.txOut, ghost.txIns, ghost.txOuts, ghost.txLastIn, ghost.txLastOut, ghost.redChange, alloc
 //@   assert call:walletTransactionExecutor.signTransaction : [signing-starts-no-earlier-than-action-start] arg2 >= mfsa.proposalProcessingStartBlock
 //@   assert call:walletTransactionExecutor.signTransaction : [signing-ends-margin-before-expiry] arg3 + movedFundsSweepSigningTimeoutSafetyMarginBlocks == mfsa.proposalExpiryBlock
@@ -861,6 +865,13 @@ package tbtc
 //@ ghost archives int
 //@ ghost lastArchivedKey string
 //@ ghost signersDecoded int
+//@ ghost signersTried int
+//@ ghost filesOffered int
+//@ ghost filesRead int
+//@ ghost filesReadOK int
+//@ assume func github.com/keep-network/keep-common/pkg/persistence.DataDescriptor.Content
+//@   modifies ghost.filesRead, ghost.filesReadOK
+//@   ensures ghost.filesRead == old(ghost.filesRead) + 1 && ghost.filesReadOK == old(ghost.filesReadOK) + ite(err == nil, 1, 0)
 //@ ghost signersKeyed int
 //@ func getWalletStorageKey
 //@   property C38
@@ -880,10 +891,12 @@ package tbtc
 //@   opt noframe 1
 //@   lit 1
 //@     opt noframe 1
-//@     modifies ghost.signersDecoded, ghost.signersKeyed
+//@     modifies ghost.signersDecoded, ghost.signersKeyed, ghost.signersTried, ghost.filesOffered, ghost.filesRead, ghost.filesReadOK
+//@     recv-from descriptorsChan: modifies ghost.filesOffered; ghost.filesOffered == old(ghost.filesOffered) + 1
 //@     assert call:getWalletStorageKey : [a-decoded-signer-is-filed-under-its-own-wallet-key] arg0 == signer.wallet.publicKey
-//@     loop 1 invariant ghost.signersDecoded - old(ghost.signersDecoded) == ghost.signersKeyed - old(ghost.signersKeyed)
+//@     loop 1 invariant ghost.signersDecoded - old(ghost.signersDecoded) == ghost.signersKeyed - old(ghost.signersKeyed) && ghost.filesOffered - old(ghost.filesOffered) == ghost.filesRead - old(ghost.filesRead) && ghost.filesReadOK - old(ghost.filesReadOK) == ghost.signersTried - old(ghost.signersTried)
 //@     ensures [every-decoded-signer-is-filed] ghost.signersDecoded - old(ghost.signersDecoded) == ghost.signersKeyed - old(ghost.signersKeyed)
+//@     ensures [every-file-offered-by-storage-is-read-and-every-readable-one-is-decoded] ghost.filesOffered - old(ghost.filesOffered) == ghost.filesRead - old(ghost.filesRead) && ghost.filesReadOK - old(ghost.filesReadOK) == ghost.signersTried - old(ghost.signersTried)
 //@   lit 2
 //@     opt noframe 1
 //@ assume func github.com/keep-network/keep-core/pkg/bitcoin.PublicKeyHash
@@ -1030,6 +1043,24 @@ package tbtc
 //@   requires ics != nil && signedClaim != nil
 //@   ensures [answer-is-the-verifier-verdict-on-this-hash-signature-and-key] err == nil ==> result0 == @sigValidB(@signingOf(ics.chain), signedClaim.ClaimHash[:], signedClaim.Signature, signedClaim.PublicKey)
 
+
+// ---------------------------------------------------------------------------
+// withCancelOnBlock (C24, C46, C11, C36 rely on it for their deadlines): the
+// waiter goroutine waits for exactly the given block under the parent context
+// and cancels the derived context on every way out - also when waiting failed.
+//@ ghost blockCtxCancels int
+//@ assume func withCancelOnBlock#lit1:cancelBlockCtx
+//@   modifies ghost.blockCtxCancels
+//@   ensures ghost.blockCtxCancels == old(ghost.blockCtxCancels) + 1
+//@ func withCancelOnBlock
+//@   property C24 C46
+//@   opt noframe 1
+//@   lit 1
+//@     opt noframe 1
+//@     modifies ghost.blockCtxCancels
+//@     assert call:withCancelOnBlock#lit1:waitForBlockFn : [waits-for-exactly-the-given-block-under-the-parent-context] arg0 == ctx && arg1 == block
+//@     ensures [the-derived-context-is-cancelled-on-every-way-out-of-the-waiter] ghost.blockCtxCancels >= old(ghost.blockCtxCancels) + 1
+
 // >>> generated by tools/gen_unmarshal_contracts.py (do not edit by hand)
 // C19 safety sweep: decoding any byte string returns an error or a value, and never panics.
 //@ func signer.Unmarshal
@@ -1037,9 +1068,10 @@ package tbtc
 //@   opt noframe 1
 //@   opt safe index slice div nil typeassert
 //@   requires s != nil
-//@   modifies ghost.signersDecoded
+//@   modifies ghost.signersDecoded, ghost.signersTried
 //@   yields ghost.signersDecoded = old(ghost.signersDecoded) + ite(result0 == nil, 1, 0)
-//@   ensures ghost.signersDecoded == old(ghost.signersDecoded) + ite(result == nil, 1, 0)
+//@   yields ghost.signersTried = old(ghost.signersTried) + 1
+//@   ensures ghost.signersDecoded == old(ghost.signersDecoded) + ite(result == nil, 1, 0) && ghost.signersTried == old(ghost.signersTried) + 1
 //@ func signingDoneMessage.Unmarshal
 //@   property C19
 //@   opt noframe 1
@@ -1083,6 +1115,7 @@ package tbtc
 //@   property C19
 //@   opt noframe 1
 //@   opt safe index slice div nil typeassert
+//@   ensures [every-decoded-proposal-is-a-fresh-object-of-its-own] err == nil ==> result0 != nil && !old(allocated(result0))
 //@ func unmarshalPublicKey
 //@   property C19
 //@   opt noframe 1
@@ -1096,20 +1129,3 @@ package tbtc
 //@   opt noframe 1
 //@   opt safe index slice div nil typeassert
 // <<< generated (unmarshal)
-
-// ---------------------------------------------------------------------------
-// withCancelOnBlock (C24, C46, C11, C36 rely on it for their deadlines): the
-// waiter goroutine waits for exactly the given block under the parent context
-// and cancels the derived context on every way out - also when waiting failed.
-//@ ghost blockCtxCancels int
-//@ assume func withCancelOnBlock#lit1:cancelBlockCtx
-//@   modifies ghost.blockCtxCancels
-//@   ensures ghost.blockCtxCancels == old(ghost.blockCtxCancels) + 1
-//@ func withCancelOnBlock
-//@   property C24 C46
-//@   opt noframe 1
-//@   lit 1
-//@     opt noframe 1
-//@     modifies ghost.blockCtxCancels
-//@     assert call:withCancelOnBlock#lit1:waitForBlockFn : [waits-for-exactly-the-given-block-under-the-parent-context] arg0 == ctx && arg1 == block
-//@     ensures [the-derived-context-is-cancelled-on-every-way-out-of-the-waiter] ghost.blockCtxCancels >= old(ghost.blockCtxCancels) + 1
